@@ -1299,16 +1299,19 @@ class BaseMatcher:
         :return:
         """
         node_max = None
-        node_max_ne = 0
-        if last_is_e:
-            for m in self.lattice[start_idx].values_all():  # type:BaseMatching
-                if not m.stop and (node_max is None or m.logprob > node_max.logprob):
-                    node_max = m
-        else:
-            for m in self.lattice[start_idx].values_all():  # type:BaseMatching
-                if not m.stop and (node_max is None or m.obs_ne > node_max_ne or m.logprob > node_max.logprob):
-                    node_max_ne = m.obs_ne
-                    node_max = m
+        node_max_key = None
+        # values_all() is a set and its iteration order depends on the string hash seed of the
+        # process: use a total order (with the name as tie breaker) to select the last node.
+        for m in self.lattice[start_idx].values_all():  # type:BaseMatching
+            if m.stop:
+                continue
+            if last_is_e:
+                m_key = (m.logprob,)
+            else:
+                m_key = (m.obs_ne, m.logprob)
+            if node_max is None or m_key > node_max_key or (m_key == node_max_key and m.cname < node_max.cname):
+                node_max_key = m_key
+                node_max = m
         if node_max is None:
             logger.error("Did not find a matching node for path point at index {}".format(start_idx))
             return None
